@@ -3,7 +3,10 @@
 
   Transcribed from: router/src/contract.rs (createPair, removePair, pause, resume, setFeeOn,
   setFeeOff, setPairCreationEnabled), config.rs (`check_is_pair_sc`, `setPairTemplateAddress`),
-  factory.rs (`create_pair`, `get_pair`), multi_pair_swap.rs (`multiPairSwap`).
+  factory.rs (`create_pair`, `get_pair`), multi_pair_swap.rs (`multiPairSwap`),
+  enable_swap_by_user.rs (`configEnableByUserParameters`, `addCommonTokensForUserPairs`,
+  `removeCommonTokensForUserPairs`, `setSwapEnabledByUser`, `getEnableSwapByUserConfig`), and —
+  as far as that module needs it — locked-asset/simple-lock (`lockTokens`, `unlockTokens`).
 
   The world is the router plus every deployed pair contract (pairs created through the router —
   still registered or already removed — and "foreign" pairs deployed by somebody else).  Each
@@ -13,10 +16,13 @@
   `Nat` (`0` = an identifier that is not a valid ESDT id), addresses are `Nat` (`0` = the zero
   address).  An LP token is identified by the address of the pair that mints it.
   `rbal` (the router's own balances) and `ubal` (balances of the user accounts) are ghost
-  ledgers: they are what property C14 talks about and what the harness observes.
+  ledgers: they are what property C14 talks about and what the harness observes.  `lbal` holds
+  the LOCKED meta-ESDT balances of every account *including the router* (a locked token class is
+  an `LTok` = the collection id of the simple-lock that minted it, the wrapped asset, the unlock
+  epoch).
 
   Not modelled: `upgradePair`, `issueLpToken`/`setLocalRoles` (async ESDT system-SC flow; the LP
-  token id and roles are installed directly, as the repo's tests do), `setSwapEnabledByUser`,
+  token id and roles are installed directly, as the repo's tests do),
   the temporary-owner bookkeeping (only read by `issueLpToken`), events.
   The contract keeps two notions of owner (the account owner checked by `#[only_owner]` and the
   `owner` storage cell written by `init`); both are the deployer, modelled as one `owner`.
@@ -32,6 +38,8 @@ abbrev Addr := Nat
 def DEFAULT_TOTAL : Nat := 300
 /-- `DEFAULT_SPECIAL_FEE_PERCENT` -/
 def DEFAULT_SPECIAL : Nat := 50
+/-- `USER_DEFINED_TOTAL_FEE_PERCENT` -/
+def USER_TOTAL : Nat := 1000
 /-- `MAX_TOTAL_FEE_PERCENT` (router side; the pair's own `init` enforces `Pair.MAXFEE`) -/
 def MAX_TOTAL : Nat := 100000
 /-- ring capacity of the pair's price observations (`MAX_OBSERVATIONS`) -/
@@ -48,6 +56,50 @@ def upd {β : Type} (f : Nat → β) (k : Nat) (v : β) : Nat → β := fun x =>
 /-- point update of a two-level total map -/
 def upd2 (f : Nat → Nat → Nat) (a k v : Nat) : Nat → Nat → Nat :=
   fun x => if x = a then upd (f a) k v else f x
+
+/-! ### locked tokens (simple-lock) and the enable-swap-by-user configuration -/
+
+/-- a class of LOCKED meta-ESDT tokens: the collection (= token id of the simple-lock contract
+    that minted it), the wrapped asset (`LockedTokenAttributes.original_token_id`: a pool token or
+    an LP token, the latter identified by its pair's address) and the unlock epoch -/
+structure LTok where
+  coll : Tok
+  orig : Nat
+  unlock : Nat
+  deriving DecidableEq, Repr
+
+/-- point update of a locked-token ledger -/
+def updL (f : Addr → LTok → Nat) (a : Addr) (k : LTok) (v : Nat) : Addr → LTok → Nat :=
+  fun x y => if x = a ∧ y = k then v else f x y
+
+/-- an ESDT transfer of `amt` locked tokens of class `k` from `src` to `dst` -/
+def xfer (l : Addr → LTok → Nat) (src dst : Addr) (k : LTok) (amt : Nat) :
+    Option (Addr → LTok → Nat) := do
+  let b ← sub? (l src k) amt
+  let l1 := updL l src k b
+  pure (updL l1 dst k (l1 dst k + amt))
+
+/-- `EnableSwapByUserConfig` -/
+structure EnableCfg where
+  lockedTok : Tok
+  minValue : Nat
+  minPeriod : Nat
+  deriving DecidableEq, Repr
+
+/-- `UnorderedSetMapper::insert` (iteration order = insertion order) -/
+def setInsert (l : List Tok) (t : Tok) : List Tok := if t ∈ l then l else l ++ [t]
+
+/-- `UnorderedSetMapper::swap_remove`: the last element takes the place of the removed one -/
+def setSwapRemove (l : List Tok) (t : Tok) : List Tok :=
+  if t ∈ l then
+    match l.getLast? with
+    | some z => l.dropLast.map fun x => if x = t then z else x
+    | none => l
+  else l
+
+/-- token ids of the two deployed simple-lock contracts' LOCKED collections -/
+def LOCK_A : Tok := 501
+def LOCK_B : Tok := 502
 
 /-! ### the registry: `pair_map : MapMapper<PairTokens, ManagedAddress>` in iteration order -/
 
@@ -130,6 +182,16 @@ structure St where
   /-- balances of the other accounts: `ubal account asset`; assets are pool tokens and LP
       tokens (identified by their pair's address) -/
   ubal : Addr → Nat → Nat
+  /-- `blockchain().get_block_epoch()` -/
+  epoch : Nat := 0
+  /-- `common_tokens_for_user_pairs` in the `UnorderedSetMapper`'s iteration order -/
+  commonToks : List Tok := []
+  /-- `enable_swap_by_user_config(token)` -/
+  enableCfg : Tok → Option EnableCfg := fun _ => none
+  /-- LOCKED-token balances of every account, the router included (ghost) -/
+  lbal : Addr → LTok → Nat := fun _ _ => 0
+  /-- the locked-token classes minted so far, in order of creation (ghost; what the driver prints) -/
+  lkeys : List LTok := []
 
 /-- results of an operation -/
 structure Out where
@@ -141,6 +203,8 @@ structure Out where
   v1 : Nat := 0
   v2 : Nat := 0
   v3 : Nat := 0
+  /-- `lockTokens` / `setSwapEnabledByUser`: the LOCKED tokens sent to the caller -/
+  back : Option (LTok × Nat) := none
   deriving DecidableEq, Repr
 
 /-! ### pair creation and removal -/
@@ -398,6 +462,102 @@ def swapOut (s : St) (u a : Addr) (tokIn : Tok) (maxIn : Nat) (tokOut : Tok) (ou
                  ubal := upd s.ubal u (upd ub tokOut (ub tokOut + r.2.v1)) },
         { v1 := r.2.v1, v2 := r.2.v2, v3 := r.2.v3 })
 
+/-! ### enable swaps by the user (enable_swap_by_user.rs) -/
+
+/-- `configEnableByUserParameters(common, locked, min_value, min_period)` by `c` -/
+def configEnable (s : St) (c : Addr) (common locked : Tok) (minValue minPeriod : Nat) :
+    Option (St × Out) := do
+  req (c = s.owner)
+  req (validTok common)
+  req (validTok locked)
+  req (common ∈ s.commonToks)
+  pure ({ s with enableCfg := upd s.enableCfg common (some ⟨locked, minValue, minPeriod⟩) }, {})
+
+/-- `addCommonTokensForUserPairs(tokens…)` by `c` (one invalid id reverts the whole call) -/
+def addCommon (s : St) (c : Addr) (toks : List Tok) : Option (St × Out) := do
+  req (c = s.owner)
+  req (∀ t ∈ toks, validTok t)
+  pure ({ s with commonToks := toks.foldl setInsert s.commonToks }, {})
+
+/-- `removeCommonTokensForUserPairs(tokens…)` by `c` (the per-token configs stay) -/
+def removeCommon (s : St) (c : Addr) (toks : List Tok) : Option (St × Out) := do
+  req (c = s.owner)
+  pure ({ s with commonToks := toks.foldl setSwapRemove s.commonToks }, {})
+
+/-- `get_lp_token_value`: the pair's `getTokensForGivenPosition(amount)`, valued in the first
+    token if it is whitelisted, else in the second if that is, else "Invalid tokens in Pair
+    contract"; returns (common token, value) -/
+def lpValue (wl : List Tok) (p : PairRec) (amount : Nat) : Option (Tok × Nat) :=
+  let v := Mx.Pair.viewTokensForPosition p.st amount
+  if p.t1 ∈ wl then some (p.t1, v.1)
+  else if p.t2 ∈ wl then some (p.t2, v.2)
+  else none
+
+/-- `locked_epochs` of `set_swap_enabled_by_user` -/
+def lockedEpochs (now unlock : Nat) : Nat := if now < unlock then unlock - now else 0
+
+/-- `setSwapEnabledByUser(pair)` by `c` paying `amount` LOCKED tokens of class `k`.
+    The ESDT transfer reaches the router before the endpoint runs; the guards follow in the
+    order of the code; at the end the same tokens are sent back (`direct_esdt`). -/
+def enableByUser (s : St) (c a : Addr) (k : LTok) (amount : Nat) : Option (St × Out) := do
+  req (0 < amount)
+  let l1 ← xfer s.lbal c s.self k amount
+  req (s.active = true)
+  checkIsPairSc s.pairMap s.pairs a
+  let p ← s.pairs a
+  -- require_state_active_no_swaps
+  req (p.st.status = .partialActive)
+  -- "Invalid locked LP token": the wrapped asset is the LP token of this pair
+  req (k.orig = a)
+  let cv ← lpValue s.commonToks p amount
+  -- try_get_config: "No config set"
+  let cfg ← s.enableCfg cv.1
+  req (k.coll = cfg.lockedTok)
+  req (cfg.minValue ≤ cv.2)
+  req (cfg.minPeriod ≤ lockedEpochs s.epoch k.unlock)
+  -- require_caller_initial_liquidity_adder
+  req (p.st.adder = some c)
+  -- set_fee_percents, pair_resume
+  let st1 ← Mx.Pair.cfg p.st (.setFee USER_TOTAL DEFAULT_SPECIAL)
+  let st2 ← Mx.Pair.cfg st1 (.setState .active)
+  let l2 ← xfer l1 s.self c k amount
+  pure ({ s with pairs := setPairSt s.pairs a p st2, lbal := l2 }, { back := some (k, amount) })
+
+/-- `setSwapEnabledByUser(pair)` paying a plain fungible token (a pool token or an unlocked LP
+    token): the payment carries no attributes, `decode_attributes` aborts — whatever else holds -/
+def enablePlain (_s : St) (_c _a : Addr) (_tok : Nat) (_amount : Nat) : Option (St × Out) := none
+
+/-! ### simple-lock: `lockTokens(unlock_epoch)` / `unlockTokens` (the part the router relies on) -/
+
+/-- `lockTokens(unlock)` on the simple-lock with collection `coll` by `u` paying `amount` of
+    `orig`: if the epoch has passed the payment comes straight back, else `amount` LOCKED
+    tokens of class `(coll, orig, unlock)` -/
+def lockTokens (s : St) (u : Addr) (coll : Tok) (orig amount unlock : Nat) : Option (St × Out) := do
+  req (coll = LOCK_A ∨ coll = LOCK_B)
+  req (0 < amount)
+  let b ← sub? (s.ubal u orig) amount
+  if unlock ≤ s.epoch then pure (s, { pays := [(orig, amount)] })
+  else
+    let k : LTok := ⟨coll, orig, unlock⟩
+    pure ({ s with ubal := upd2 s.ubal u orig b,
+                   lbal := updL s.lbal u k (s.lbal u k + amount),
+                   lkeys := if k ∈ s.lkeys then s.lkeys else s.lkeys ++ [k] },
+          { back := some (k, amount) })
+
+/-- `unlockTokens` by `u` paying `amount` LOCKED tokens of class `k` -/
+def unlockTokens (s : St) (u : Addr) (k : LTok) (amount : Nat) : Option (St × Out) := do
+  req (0 < amount)
+  let b ← sub? (s.lbal u k) amount
+  req (k.unlock ≤ s.epoch)
+  pure ({ s with lbal := updL s.lbal u k b,
+                 ubal := upd2 s.ubal u k.orig (s.ubal u k.orig + amount) },
+        { pays := [(k.orig, amount)] })
+
+/-- the block epoch moves forward -/
+def advance (s : St) (e : Nat) : Option (St × Out) := do
+  req (s.epoch ≤ e)
+  pure ({ s with epoch := e }, {})
+
 /-! ### the state machine -/
 
 inductive Op
@@ -415,6 +575,14 @@ inductive Op
   | removeLiq (u a : Addr) (lp m1 m2 : Nat)
   | swapIn (u a : Addr) (tokIn : Tok) (x : Nat) (tokOut : Tok) (minOut : Nat)
   | swapOut (u a : Addr) (tokIn : Tok) (maxIn : Nat) (tokOut : Tok) (out : Nat)
+  | configEnable (c : Addr) (common locked : Tok) (minValue minPeriod : Nat)
+  | addCommon (c : Addr) (toks : List Tok)
+  | removeCommon (c : Addr) (toks : List Tok)
+  | enableByUser (c a : Addr) (k : LTok) (amount : Nat)
+  | enablePlain (c a : Addr) (tok amount : Nat)
+  | lock (u : Addr) (coll : Tok) (orig amount unlock : Nat)
+  | unlock (u : Addr) (k : LTok) (amount : Nat)
+  | advance (e : Nat)
   deriving DecidableEq, Repr
 
 def step (s : St) : Op → Option (St × Out)
@@ -432,6 +600,14 @@ def step (s : St) : Op → Option (St × Out)
   | .removeLiq u a lp m1 m2 => removeLiq s u a lp m1 m2
   | .swapIn u a ti x to m => swapIn s u a ti x to m
   | .swapOut u a ti mx to o => swapOut s u a ti mx to o
+  | .configEnable c common locked mv mp => configEnable s c common locked mv mp
+  | .addCommon c toks => addCommon s c toks
+  | .removeCommon c toks => removeCommon s c toks
+  | .enableByUser c a k amount => enableByUser s c a k amount
+  | .enablePlain c a tok amount => enablePlain s c a tok amount
+  | .lock u coll orig amount unlock => lockTokens s u coll orig amount unlock
+  | .unlock u k amount => unlockTokens s u k amount
+  | .advance e => advance s e
 
 /-- the state after a history: failed transactions leave the state unchanged. -/
 def run (s : St) (ops : List Op) : St :=
